@@ -73,9 +73,11 @@ package pcache
 // FetchAll returns no nil record (a nil element would be dereferenced).
 //@ iface ProviderSource.FetchAll
 //@   pure
+//@   requires arg1 != nil
 //@   ensures-assumed result1 == nil ==> forall(j, 0, len(result0), result0[j] != nil)
 //@ iface ProviderSource.Fetch
 //@   pure
+//@   requires arg1 != nil
 //@ iface ProviderSource.String
 //@   pure
 
@@ -138,6 +140,9 @@ package pcache
 //@   modifies mapof(pc.write), pc.read, objects(cacheInfo)
 //@   ensures pcOK(pc) && !held(pc.writeLock)
 //@   at call Fetch#1: assert !old(has(pc.write, pid)) || count("call:Errorw") >= 1
+// a miss is always remembered - with the record found, or as absent whatever the sources answered (not
+// found, failed, nothing): every return that is not the cancellation return leaves an entry for pid
+//@   ensures-local has(pc.write, pid) || count("call:Context.Err") >= 1
 //@   at call As#1: after assume result ==> apiErr != nil
 //@   at call needMerge#1: assume arg0 < 2147483648 && arg1 < 2147483648
 //@   ensures-local count("atomic.store:read") <= 1
@@ -208,12 +213,15 @@ package pcache
 //@   ensures result == nil && len(cfg.sources) == old(len(cfg.sources)) + len(src)
 //@   ensures forall(j, 0, old(len(cfg.sources)), cfg.sources[j] == old(cfg.sources)[j])
 
+//@ spec func srcOK(s val) bool = s.client != nil && s.url != nil
 // A source for a URL is a new object; nothing the caller holds is modified.
 //@ func NewHTTPSource
 //@   property C06
 //@   readonly
+//@   assumes http.DefaultClient != nil
 //@   ensures result1 == nil ==> result0 != nil
 //@   ensures result1 != nil ==> result0 == nil
+//@   ensures result1 == nil ==> typeis(result0, "*pcache.httpSource") && srcOK(as(result0, "*pcache.httpSource"))
 
 //@ func WithSourceURL$1
 //@   property C06
@@ -224,3 +232,25 @@ package pcache
 //@   loop 1: exhaustive
 //@   ensures result == nil ==> len(cfg.sources) == old(len(cfg.sources)) + len(urls)
 //@   ensures forall(j, 0, old(len(cfg.sources)), cfg.sources[j] == old(cfg.sources)[j])
+
+// The HTTP source (C06): what it reports is what the indexer answered - the whole response body, decoded
+// once into a fresh value that is returned as it was decoded; any status other than 200 is not a report.
+// Data-structure invariant of an httpSource (established by its only constructor, proved there; ASSUMED
+// at the methods, which cannot know where their receiver came from):
+//@ func (*httpSource).FetchAll
+//@   property C06
+//@   requires s != nil && ctx != nil
+//@   assumes srcOK(s)
+//@   ghost gb := zero("[]byte")
+//@   at call ReadAll#1: after ghost gb := result0
+//@   at call Unmarshal#1: assert arg0 == gb
+//@   ensures-local result1 == nil ==> (count("call:Unmarshal") == 1 && count("call:ReadAll") == 1) || count("call:FromResponse") == 1
+
+//@ func (*httpSource).Fetch
+//@   property C06
+//@   requires s != nil && ctx != nil
+//@   assumes srcOK(s)
+//@   ghost gb := zero("[]byte")
+//@   at call ReadAll#1: after ghost gb := result0
+//@   at call Unmarshal#1: assert arg0 == gb
+//@   ensures-local result1 == nil && result0 != nil ==> count("call:Unmarshal") == 1 && count("call:ReadAll") == 1 && isfresh(result0)
